@@ -146,6 +146,11 @@ def scripts_for(pid, tier, seed, fx):
         for _ in range(600 if thorough else 20):
             ns = xg + rng.sample([g for g in groups if g not in xg], rng.choice([0, 1, 2]))
             rnd(ns, 1, 60 if thorough else 45, registry=True, stats=False, nkeys=3)
+        # labels differing only in case / blanks, next to their plain namesakes
+        ug = ["g_u1", "g_u2", "g_a", "g_ab"]
+        for _ in range(400 if thorough else 20):
+            ns = ug + rng.sample([g for g in groups if g not in ug], rng.choice([0, 1]))
+            rnd(ns, 1, 60 if thorough else 45, registry=True, stats=False, nkeys=3)
         # policies / limits behind invalidate_with on ordinary fixtures
         for _, p in KINDS[0:3:2]:
             for f in (p + "_lru2", p + "_lfu3_ttl2", p + "_arc2", p + "_mem_lru", p + "_fifo3_ttl2"):
